@@ -134,6 +134,18 @@ CLAIMED = {
              "code on residues with carry-critical limbs and random ones (with receiver aliasing), canonical decoding around the "
              "modulus and MultiSelect are recomputed by TLC with integer arithmetic.",
         note=SM2NOTE, ref="6 C16"),
+    "C17": dict(
+        technique="TLA+ interleaving model over read/write footprints computed by the abstract machine on the current listing; concurrent executions of the real code judged call-by-call by TLC with the sequential specifications",
+        text="TLC explores every interleaving of 2 (quick) / 3 (thorough) goroutines x 2 calls whose micro-step footprints (which of "
+             "cipher object, shared inputs, package state, private destination, private scratch are read/written) are derived at "
+             "check time from AsmMachine's access summaries of sealAsm/openAsm/cryptoBlockAsm: no conflicting concurrent access, "
+             "every read of a shared location sees its initial value, shared locations untouched. On the real code 16 goroutines "
+             "repeat a mixed batch (Seal, Open authentic and forged, Encrypt, Decrypt, SignHashed, VerifyHashed, DerivePublic, SM3) "
+             "on one Block, one AEAD, one key set and shared buffers; TLC judges every result with the sequential specs; buffer "
+             "pool and package state must be byte-identical afterwards; thorough adds a -race build.",
+        note="Trusted: as C09/C06/C01 plus the executor's pool hashing. A schedule-dependent fault that changes no result or buffer is not "
+             "visible dynamically; the race detector does not see assembly (hence the footprint model).",
+        ref="6 C17"),
     "C18": dict(
         technique="complete enumeration: every table entry and assembly DATA block recomputed by TLC from its derivation (EC scalar multiples, algebraic S-box, SDM semantics of the GFNI affine instructions)",
         text="Finite and enumerated completely in both tiers: TLC recomputes every entry of the four SM2 comb tables and three "
